@@ -461,3 +461,7 @@ CHECKS = [
                "after every compute: independent aggregate and context of the last value; after a reset a fresh twin receives the same ops and must agree. "
                "Non-trivial = a reset after >=1 fill followed by fill+compute, or a float multiset where naive summation differs from the exact sum (DSum)."),
 ]
+
+
+from .. import covfuzz  # noqa
+CHECKS.append(covfuzz.check(CHECKS, "harness.props.c09", "histories", quick=3000, thorough=100000))
